@@ -364,6 +364,9 @@ func (d *downSender) AppendHeaders(ctx context.Context, headers api.HeaderMap, e
 		return errSender
 	}
 	d.h.add(Rec{Kind: "down.hdr", End: end, Code: code, Aux: kind, Req: req})
+	if !end && kind == "up" && d.h.spec.ResetUpOn == "hdr" {
+		d.h.lateUpReset()
+	}
 	if end {
 		d.BaseStream.DestroyStream() // the server stream is gone once the reply is complete (later resets do not reach the proxy)
 	}
@@ -390,6 +393,9 @@ func (d *downSender) AppendData(ctx context.Context, data buffer.IoBuffer, end b
 		return errSender
 	}
 	d.h.add(Rec{Kind: "down.data", End: end, Aux: owner})
+	if !end && d.h.spec.ResetUpOn == "data" {
+		d.h.lateUpReset()
+	}
 	if end {
 		d.BaseStream.DestroyStream()
 	}
@@ -404,6 +410,22 @@ func (d *downSender) AppendTrailers(ctx context.Context, trailers api.HeaderMap)
 	d.h.add(Rec{Kind: "down.trl"})
 	d.BaseStream.DestroyStream()
 	return nil
+}
+
+// the stream layer resets the upstream stream of the current attempt although its response has been handed over (the stream is
+// still registered: e.g. the connection is closed right after the response): the proxy's upstreamRequest gets OnResetStream
+func (h *hist) lateUpReset() {
+	h.mu.Lock()
+	var u *upStream
+	if len(h.ups) > 0 {
+		u = h.ups[len(h.ups)-1]
+	}
+	h.mu.Unlock()
+	if u == nil || u.failed {
+		return
+	}
+	h.add(Rec{Kind: "ev.inline", K: u.k, Aux: h.spec.ResetUpReason})
+	u.BaseStream.ResetStream(reasons[h.spec.ResetUpReason])
 }
 
 // a refused call that was the reply's last one: the proxy has handed the whole reply over and will not touch the stream again;
